@@ -365,3 +365,8 @@ def check_als_func(ctx, rng, quick):
         info = {}
         teneva.als_func(X, y, A0, nswp=2, info=info, lamb=lamb)
         ctx.check(info.get('stop') in ('nswp', 'e', 'e_vld') and info.get('nswp') in (1, 2), 'als_func:info', 'als_func info: %s' % info)
+
+
+def selftest(ctx):
+    from . import selftest as ST
+    return ST.als(ctx)
